@@ -3,6 +3,7 @@ package main
 // C08 — names resolve by Go's lexical block scoping.
 
 import (
+	"regexp"
 	"fmt"
 	"go/ast"
 	"go/types"
@@ -22,6 +23,7 @@ func init() {
 			{"SCO-ORDER", 4, ruleScoOrder},
 			{"SCO-BLOCK", 6, ruleScoBlock},
 			{"SCO-CHAIN", 6, ruleScoChain},
+			{"SCO-IMPORTSET", 2, ruleScoImportSet},
 		},
 	})
 }
@@ -434,6 +436,28 @@ func ruleScoOrder(c *Ctx, r *R) {
 				if a.Ins != nil && opName(a.Ins) == "GlobalGet" {
 					n++
 					cs := condStrings(p.St)
+					// the decision may have been taken inside a new helper that returns (index, ok):
+					// then every ok-path of the helper must carry the test
+					if m := regexp.MustCompile(`compiler\.(\w+)\(c, [^#]*\)#1`).FindStringSubmatch(cs); m != nil && !strings.Contains(cs, "!lookup.Exists(c.Locals,") {
+						if hfd := c.Func("compiler." + m[1]); hfd != nil {
+							if ho := c.Info.Defs[hfd.Name]; ho != nil && c.isNewHelper(ho) {
+								all, nOK := true, 0
+								for _, hp := range c.pathsOf("compiler."+m[1], func(in *Interp) {
+									in.NoReturn = func(o types.Object) bool { return o.Name() == "panicf" }
+								}) {
+									if hp.Done == "return" && len(hp.Ret) == 2 && hp.Ret[1].Op == "const" && hp.Ret[1].Name == "true" {
+										nOK++
+										if !strings.Contains(condStrings(hp), "!lookup.Exists(c.Locals,") {
+											all = false
+										}
+									}
+								}
+								if all && nOK > 0 {
+									cs += " && !lookup.Exists(c.Locals, <in " + m[1] + ">)"
+								}
+							}
+						}
+					}
 					r.check(strings.Contains(cs, "!lookup.Exists(c.Locals,"), "import-alias", c.Pos(dsc.Clause), "an alias is resolved only when no local of that name exists", "pkg.Name is resolved through the import table although a local variable named like the alias exists (locals must shadow imported package names): "+cs)
 				}
 			}
@@ -686,5 +710,72 @@ func ruleScoChain(c *Ctx, r *R) {
 		}
 	} else {
 		r.undecided("drop order", "-", "lookup.Drop not found")
+	}
+}
+
+// SCO-IMPORTSET: pkg.Name means the same as an assignment target as it does when read.
+// Reading consults the import table (compile(".") emits GLOBALGET for an alias that no local
+// shadows); the assignment cases must consult it too before they treat `a.b = v` as a
+// field store — otherwise `reg.Count++` or `reg.Order = append(reg.Order, x)` on an
+// imported package's variable compiles `reg` as an undefined global and SETATTR fails.
+func ruleScoImportSet(c *Ctx, r *R) {
+	cs, err := c.compileSwitch()
+	if err != nil {
+		r.undecided("compile", "-", err.Error())
+		return
+	}
+	consults := func(conds []*T) bool {
+		for _, cd := range conds {
+			s := cd.String()
+			if strings.Contains(s, "c.Imports[") {
+				return true
+			}
+			if m := regexp.MustCompile(`compiler\.(\w+)\(c, [^#]*\)#1`).FindStringSubmatch(s); m != nil {
+				for _, hp := range c.pathsOf("compiler."+m[1], func(in *Interp) {
+					in.NoReturn = func(o types.Object) bool { return o.Name() == "panicf" }
+				}) {
+					if strings.Contains(condStrings(hp), "c.Imports[") {
+						return true
+					}
+				}
+			}
+		}
+		return false
+	}
+	n := 0
+	for _, label := range []string{"=", "|="} {
+		sc := cs.ByLabel[label]
+		if sc == nil {
+			r.undecided("target "+label, "-", "no compile-case")
+			continue
+		}
+		m := newLayMachine(c)
+		cl, err := m.runCase(cs, label)
+		if err != nil {
+			r.undecided("target "+label, c.Pos(sc.Clause), err.Error())
+			continue
+		}
+		var paths []*layoutPath
+		paths = append(paths, cl.Paths...)
+		for _, it := range cl.Iters {
+			paths = append(paths, it.Exits...)
+		}
+		for _, p := range paths {
+			sets := false
+			for _, a := range p.Atoms {
+				if a.Ins != nil && opName(a.Ins) == "SetAttr" {
+					sets = true
+				}
+			}
+			if !sets {
+				continue
+			}
+			n++
+			r.check(consults(p.St.Conds), "target "+label, c.Pos(sc.Clause), "a selector target is a field store only after the import table was consulted",
+				"compile(\""+label+"\") treats every `a.b` target as a field store without consulting the import table (path: "+condStrings(p.St)+"): assigning to a variable of an imported package (`reg.Count++`, `reg.Order = append(reg.Order, x)`) compiles the package name as an undefined global and the load aborts with a nil dereference in SETATTR")
+		}
+	}
+	if n == 0 {
+		r.undecided("target", "-", "no assignment path emits SETATTR")
 	}
 }
